@@ -3,7 +3,7 @@
 (* Time grids of the sampling methods (C06).                               *)
 (*                                                                         *)
 (* A grid specification is a record                                        *)
-(*   [kind  : "uniform" | "geometric" | "function" | "free",               *)
+(*   [kind  : "uniform" | "geometric" | "function" | "density" | "free",   *)
 (*    r     : rational, ratio of consecutive intervals (geometric),        *)
 (*    growth: rational, the growth_factor handed to rockit,                *)
 (*    local : BOOLEAN (geometric: growth is per interval),                 *)
@@ -26,6 +26,9 @@ Geometric(r, N, local) ==
   GridSpec("geometric", r, IF local \/ N = 1 THEN r ELSE Pow(r, N - 1), local, <<>>,
            FALSE, FALSE, FALSE, Zero, FALSE, Zero)
 FunctionG(nodes) == GridSpec("function", One, One, FALSE, nodes, FALSE, FALSE, FALSE, Zero, FALSE, Zero)
+\* DensityGrid: the nodes equidistribute a density; they are given here (a constant density has the uniform nodes, other
+\* densities have irrational ones and are covered by TraceDensity).  Bounds act on every interval, like for FunctionGrid.
+DensityG(nodes) == [FunctionG(nodes) EXCEPT !.kind = "density"]
 FreeG == GridSpec("free", One, One, FALSE, <<>>, FALSE, TRUE, FALSE, Zero, FALSE, Zero)
 WithLocal(G, lt0, lT) == [G EXCEPT !.lt0 = lt0, !.lT = (lT \/ G.kind = "free")]
 WithMin(G, m) == [G EXCEPT !.hasmin = TRUE, !.min = m]
@@ -42,7 +45,7 @@ CumSum(s, w, i) == IF i > Len(w) THEN <<s>> ELSE <<s>> \o CumSum(Add(s, w[i]), w
 Normalized(G, N) ==
   CASE G.kind = "uniform"   -> Tup([k \in 1..N + 1 |-> Q(k - 1, N)])
     [] G.kind = "free"      -> Tup([k \in 1..N + 1 |-> Q(k - 1, N)])   \* used for guesses only
-    [] G.kind = "function"  -> G.nodes
+    [] G.kind \in {"function", "density"}  -> G.nodes
     [] G.kind = "geometric" ->
          LET w == GeoW(G.r, N)
              tot == SumSeq(w)
@@ -140,7 +143,7 @@ AlgRows(G, N, t0, T, gv, k, Devs) ==
                          THEN <<BoxRow(G, IF HasTl(G) THEN TlAt(G, N, T, gv, N) ELSE Mul(T, Sub(n[N + 1], n[N])))>>
                          ELSE <<>>
             IN first \o last \o fixed
-       [] G.kind = "function" ->
+       [] G.kind \in {"function", "density"} ->
             (IF bounded /\ "FunctionGridUnbounded" \notin Devs
              THEN <<BoxRow(G, Mul(T, Sub(n[k + 1], n[k])))>> ELSE <<>>) \o fixed
 
